@@ -45,6 +45,8 @@
      closed, the dropped-packet error: teardown, C03) - so the answers do not depend
      on the schedule: they are the recursive evaluation over the derivation tree, which is what the harness's
      reference evaluation of a workflow computes;
+   - C02_network_one_answer: over the whole network a packet has at most one recorded answer, and has one exactly
+     when some node has answered it;
    - C02_network_no_deadlock: while anything is pending some node can finish an action or answer (acyclicity is
      used here); C02_network_quiescent: a network that cannot move has answered everything it received, exactly
      once and in order.
@@ -187,6 +189,12 @@ Theorem C02_network_quiescent : forall (ans : Type) (join : list ans -> ans) (dr
   forall n, Network.n_q ans st n = [] /\ Network.n_done ans st n = Network.n_arr ans st n /\ NoDup (Network.n_done ans st n).
 Proof. exact Network.quiescent_all_answered. Qed.
 Print Assumptions C02_network_quiescent.
+
+Theorem C02_network_one_answer : forall (ans : Type) (join : list ans -> ans) (drop : ans) (N : nat) ls,
+  let st := Network.run ans join drop N ls in
+  NoDup (map fst (Network.n_ans ans st)) /\ forall id, In id (map fst (Network.n_ans ans st)) <-> exists n, In id (Network.n_done ans st n).
+Proof. exact Network.one_answer_per_packet. Qed.
+Print Assumptions C02_network_one_answer.
 
 (* non-vacuity: a diamond 0 -> {1, 2} -> 3 with two requests pipelined; answers are sums.  The second request
    overtakes nowhere: node 0 answers request 0 first although request 1's branch finished earlier. *)
